@@ -53,7 +53,7 @@ def run(ctx):
     ctx.add_tlc("negative control / documentation: 'sent before the call' is weaker than 'dequeued' (SentThenCallApplies must fail)", r, negative=True)
 
     sim = 2500 if thorough else 500
-    suite = [("W3", 4, None, 6000), ("W4", 4, None, 6000), ("W4r", 7, None, 6000, "KeepTwoPasses"), ("W4n", 7, None, 6000, "KeepTwoPasses"), ("W9n", 5, None, None), ("W4x", 7, None, 6000, "KeepReReg"), ("W4s", 6, None, 6000, "KeepStatic"), ("W8", 4, None, None), ("W8", 5, None, 8000, "KeepEnh"), ("W9o", 4, None, None), ("W3", 7, sim, None), ("W4", 7, sim, None), ("W5", 6, sim, None),
+    suite = [("W3", 4, None, 6000), ("W3s", 5, None, 1200, "KeepBatch2"), ("W4e", 6, None, None, "KeepTwoPasses"), ("W4", 4, None, 6000), ("W4r", 7, None, 6000, "KeepTwoPasses"), ("W4n", 7, None, 6000, "KeepTwoPasses"), ("W9n", 5, None, None), ("W4x", 7, None, 6000, "KeepReReg"), ("W4s", 6, None, 6000, "KeepStatic"), ("W8", 4, None, None), ("W8", 5, None, 8000, "KeepEnh"), ("W9o", 4, None, None), ("W3", 7, sim, None), ("W4", 7, sim, None), ("W5", 6, sim, None),
              ("W8", 6, 200 if thorough else 60, None), ("W7c", 6, sim // 2, None)]
     if thorough:
         suite += [("W3", 5, None, 40000), ("W4", 5, None, 40000), ("W5", 4, None, 30000)]
